@@ -30,6 +30,18 @@ CLAIMED = {
              text="For each declared length all 2^(8*len) byte strings are covered by one SAT query: the return-value contract, every truncation point of every accepted header, and cbmc's dereference/bounds/division checks on decode, validate, get_format and tostring.",
              note="Trusted: cbmc 6.11 + minisat; strdup_printf stubbed (arguments still evaluated by the real caller). Same tolerated pointer-arithmetic classes as C12.",
              ref="C14"),
+ "C09": dict(technique="bounded symbolic execution of list.c (cbmc, SAT): one operation from every well-formed two-list state over a node pool (inductive step) + short operation sequences, against an array model",
+             text="Every well-formed state of two disjoint lists over 5 (thorough 6) nodes - up to renaming of nodes - including stale tails of empty lists and iterators at any position incl. past the end is concretised into real list_t/list_node_t objects; one real operation with arbitrary arguments must leave exactly the model's sequences, return values and cleared off-list links. Because the invariant is re-established, the step covers histories of any length over that many nodes.",
+             note="Trusted: cbmc 6.11 + minisat, the array model in harness/c09.c, the symmetry argument (node identity is only used through pointer equality).",
+             ref="C09"),
+ "C10": dict(technique="bounded symbolic execution of messageq.c (cbmc, SAT): one API call from an arbitrary valid sequential state with symbolic geometry (depth 1..32, size, slack), against a cyclic-window model",
+             text="Depth, message size, slack, window position, held/claimed counts and the sent set are all symbolic at once; one real claim/send/receive/release/empty call must match the cyclic-window model and re-establish the representation invariant, so sequential histories of any length are covered for every geometry in the bound.",
+             note="Trusted: cbmc 6.11 + minisat (weak CAS modelled as strong - sequential use), the window model in harness/c10.c. 1<<31 at depth 32 is tolerated signed-shift UB, counted in the evidence.",
+             ref="C10"),
+ "C20": dict(technique="bounded symbolic execution of mlog.c (cbmc --no-simplify, SAT): one operation + one observation from an arbitrary valid log state with ghost message count in [0,2^40)",
+             text="The ghost count ranges over 2^40 values so the 2^31 fold of the internal counter is inside the single query; the 256 slots carry index-tagged contents and the new message symbolic contents, so which slot every mlog_get_line(k) returns is decided for every int k. Inductive over histories. mlog_dump is only decided for logs of up to 4 messages (thorough tier) - see DESIGN.md.",
+             note="Trusted: cbmc 6.11 with the simplifier off (a simplifier bug affects exactly mlog's access pattern; reproducer in DESIGN.md), minisat, the fold rule in harness/c20.c; strdup_printf/fprintf are capture stubs.",
+             ref="C20"),
 }
 NA = {}
 
